@@ -201,7 +201,13 @@ func cmdCheck(args []string) int {
 	if *tier == "thorough" && *overlay == "" && *tags == "" {
 		// self-test of the checker: seeded changes must be reported, behaviour-preserving
 		// refactorings must stay silent (each in a separate analyser process, as an overlay)
-		res := selfTest(*prop, *repo, *verif)
+		files := map[string]bool{}
+		for _, o := range rep.Obs {
+			if i := strings.LastIndex(o.Site, ":"); i > 0 {
+				files[o.Site[:i]] = true
+			}
+		}
+		res := selfTest(*prop, *repo, *verif, files)
 		counts := map[string]int{}
 		for _, v := range res {
 			counts[v.Kind+"_"+v.Result]++
@@ -214,8 +220,8 @@ func cmdCheck(args []string) int {
 		for k, n := range counts {
 			rep.Stats["selftest_"+k] = n
 		}
-		fmt.Printf("selftest: mutants killed=%d survived=%d, benign silent=%d fired=%d, skipped=%d, errors=%d\n",
-			counts["mutant_killed"], counts["mutant_survived"], counts["benign_silent"], counts["benign_fired"],
+		fmt.Printf("selftest: mutants killed=%d survived=%d, benign silent=%d fired=%d unrelated=%d, skipped=%d, errors=%d\n",
+			counts["mutant_killed"], counts["mutant_survived"], counts["benign_silent"], counts["benign_fired"], counts["benign_unrelated"],
 			counts["mutant_skipped"]+counts["benign_skipped"], counts["mutant_error"]+counts["benign_error"])
 	}
 	vd := *verif
